@@ -223,7 +223,7 @@ PROPS['C12'] = {
                    'Kani harnesses on the real evaluate_v with recording Tag pieces and a counting input iterator (output k is produced after exactly k+1 inputs '
                    'were pulled), bounded in N and K.',
     'assumptions': [PARAM, FM_BITS, FM_ORD,
-                    'u_evalv: vgen rule 14 (closure body as step function); the wrapper text of evaluate_v (initial cursor 0, non-empty assert, Iterator::map) is NOT verified by Verus: pinned by normalised sha256, an edit there makes the unit undecided and leaves the decision to the Kani harnesses',
+                    'u_evalv: vgen rule 16 (the closure `|i| i + prev_seg` passed to map_or is annotated mechanically with its own body as contract); vgen rule 14 (closure body as step function); the wrapper text of evaluate_v (initial cursor 0, non-empty assert, Iterator::map) is NOT verified by Verus: pinned by normalised sha256, an edit there makes the unit undecided and leaves the decision to the Kani harnesses',
                     'trusted contracts (assume_specification) for <slice::Iter as Iterator>::position and Option::map_or; vstd contracts for Vec range indexing, slice::iter, Vec indexing, Vec::len',
                     'contracts of Piecewise::evaluate and Segment::evaluate are assumed in u_evalv and proved in u_pwsel',
                     'bounded (Kani part: wrapper, laziness): (N segments, K arguments) in {(1..4,3), (5,2), (6,2)} with symbolic breakpoints and (24,2), (17,3) on the concrete breakpoint grid 0,0,1,1,2,.. with an exact size hint (quick); plus (3,4), (4,4), (8,2), (12,2) (thorough)'],
